@@ -31,6 +31,8 @@ class Cmp:
         except KeyError:
             return self.miss(where, "expected a number, got %s" % type(iv).__name__)
         rkind = RX.kind_of(rv)
+        if getattr(self, "int_stays_int", False) and not self.symbolic and rkind == "int" and ikind != "int":
+            return self.miss(where, "is %s (%s), but integer values in this expression give the integer %r" % (ikind, P.tag_of(iv).__name__, rv))
         if self.strict and ikind != rkind:
             return self.miss(where, "is %s (%s), expected kind %s" % (ikind, P.tag_of(iv).__name__, rkind))
         if self.symbolic:
@@ -41,10 +43,11 @@ class Cmp:
             return self.miss(where, "value differs", ne)
         if P.is_proxy(iv):
             raise AssertionError("proxy in concrete comparison")
-        if not U.close(iv, rv):
+        rel = getattr(self, "rel", 1e-12)
+        if not U.close(iv, rv, rel=rel):
             # rounding errors of float operations are relative to the operands: tolerate 1e-12 of the largest float intermediate
             try:
-                if RX.kind_of(rv) != "int" and abs(complex(iv) - complex(rv)) <= 1e-12 * T.PyAlg.fscale:
+                if RX.kind_of(rv) != "int" and abs(complex(iv) - complex(rv)) <= rel * T.PyAlg.fscale:
                     return
             except (TypeError, ValueError):
                 pass
